@@ -105,7 +105,7 @@ def _xor_old_overlay(work):
 
 
 seq(prop="C20", lean_targets=["TransportVerif.Props.C20"], pkg="utils/xor", inpkg="xor", run="^TestVerifXor$", component="xor",
-    quick_n=6000, thorough_n=200000,
+    quick_n=6000, thorough_n=48000,
     variants=[dict(files=["xor_h_test.go", "variant_generic_test.go"]),
               dict(files=["xor_h_test.go", "variant_old_test.go"], overlay_fn=_xor_old_overlay)],
     nontrivial=["aliased", "unequal", "words+tail", "dst-short"],
@@ -191,7 +191,7 @@ def _vtime(files):
 
 
 seq(prop="C15", lean_targets=["TransportVerif.Props.C15"], pkg="vnet", run="^TestVerifTBF$", component="tbf",
-    files=["tbf_h_test.go"], quick_n=800, thorough_n=40000, search_n=3000,
+    files=["tbf_h_test.go"], quick_n=800, thorough_n=8000, search_n=3000,
     variants=[dict(overlay_fn=_vtime(["vnet/tbf.go"]))],
     nontrivial=["queued", "multi-forward", "dropped-queue-full", "set-rate", "set-burst", "after-idle", "burst-arrival"],
     rule="random timed arrival lists (10..80 events) under a virtual clock: spacings 0, 1 us, 1 ms, 20/50/99/100/101/150 ms, 1 s, 10 s and random; sizes 0, 1, 100, 1200, 1500, "
@@ -211,7 +211,7 @@ def _yield(rel, funcs):
 
 
 seq(prop="C08", lean_targets=["TransportVerif.Props.C08"], pkg="packetio", run="^TestVerifBufSync$", component="bufsync",
-    files=["sync_test.go"], quick_n=600, thorough_n=30000, search_n=3000,
+    files=["sync_test.go"], quick_n=600, thorough_n=6000, search_n=3000,
     variants=[dict(overlay_fn=_yield("packetio/buffer.go", ["Read", "Write", "Close"]))],
     nontrivial=["two-readers-in-window", "take-and-repost", "write-token-dropped", "write-handoff", "close-wakes", "select-parks", "select-closed"],
     rule="random controlled schedules of 1..4 readers, 0..4 writers, 0..2 closers on one Buffer holding 0..2 packets at the start; a schedule is a sequence of grants at the yield "
@@ -236,7 +236,7 @@ def _vtime_yield(rel, funcs, kinds):
 
 
 seq(prop="C14", lean_targets=["TransportVerif.Props.C14"], pkg="vnet", run="^TestVerifDelay$", component="delay",
-    files=["delay_h_test.go"], quick_n=500, thorough_n=20000, search_n=2000,
+    files=["delay_h_test.go"], quick_n=500, thorough_n=4000, search_n=2000,
     variants=[dict(overlay_fn=_vtime_yield("vnet/delay_filter.go", ["Run", "onInboundChunk"], "select,send"))],
     nontrivial=["tick-arm-while-sender-in-window", "notify-after-drain", "notify-wakes-loop", "timer-fires", "forward", "push-arm"],
     rule="controlled schedules of the DelayFilter loop and 1..5 senders under a virtual clock: delays 0, 1 ns, 1 us, 1/10/50 ms; operations: a sender timestamps and queues its chunk (stopping "
@@ -254,7 +254,7 @@ seq(prop="C14", lean_targets=["TransportVerif.Props.C14"], pkg="vnet", run="^Tes
 
 _DL_FILES = ["deadline/deadline.go", "deadline/timer_generic.go"]
 seq(prop="C10", lean_targets=["TransportVerif.Props.C10"], pkg="packetio", run="^TestVerifRDL$", component="rdl",
-    files=["rdl_test.go"], quick_n=100, thorough_n=10000, search_n=600,
+    files=["rdl_test.go"], quick_n=100, thorough_n=800, search_n=600,
     variants=[dict(name="buffer", overlay_fn=_vtime(_DL_FILES)),
               dict(name="dpipe", pkg="dpipe", inpkg="dpipe", overlay_fn=_vtime(_DL_FILES)),
               dict(name="bridge", pkg="test", inpkg="test", overlay_fn=_vtime(_DL_FILES)),
@@ -290,7 +290,7 @@ def _yield_k(rel, funcs, kinds):
 
 
 seq(prop="C12", lean_targets=["TransportVerif.Props.C12"], pkg="udp", run="^TestVerifLife$", component="life",
-    files=["life_h_test.go"], quick_n=400, thorough_n=20000, search_n=2000,
+    files=["life_h_test.go"], quick_n=400, thorough_n=6000, search_n=2000,
     variants=[dict(overlay_fn=_yield_k("udp/conn.go", ["Accept", "Close", "getConn"], "select,lock,wait,wgadd"))],
     nontrivial=["accept-takes-after-close-began", "discards-unaccepted", "socket-closes", "waits-for-readloop", "wakes-acceptors", "arrival-creates", "accept-parks"],
     rule="controlled schedules on a real listener (loopback socket): 0..2 connections already accepted, 0..2 waiting in the backlog, then 0..2 Accept callers, a listener Close, Close of accepted "
@@ -307,7 +307,7 @@ seq(prop="C12", lean_targets=["TransportVerif.Props.C12"], pkg="udp", run="^Test
 
 _CTX_KINDS = "select,recv,wait,go"
 seq(prop="C17", lean_targets=["TransportVerif.Props.C17"], pkg="netctx", run="^TestVerifCtxConn$", component="ctx", always_judge=("end", "fin"),
-    files=["ctx_h_test.go"], quick_n=300, thorough_n=20000, search_n=2000,
+    files=["ctx_h_test.go"], quick_n=300, thorough_n=2400, search_n=2000,
     variants=[dict(name="conn", overlay_fn=_yield_k("netctx/conn.go", ["ReadContext", "WriteContext"], _CTX_KINDS)),
               dict(name="packet", run="^TestVerifCtxPacket$", overlay_fn=_yield_k("netctx/packetconn.go", ["ReadFromContext", "WriteToContext"], _CTX_KINDS)),
               dict(name="connctx", pkg="connctx", run="^TestVerifCtx$", overlay_fn=_yield_k("connctx/connctx.go", ["ReadContext", "WriteContext"], _CTX_KINDS))],
@@ -346,4 +346,29 @@ seq(prop="C01", lean_targets=["TransportVerif.Props.C01", "TransportVerif.Props.
     assumptions=["one router iteration (pop, route, hand over) is atomic; concurrent senders and router goroutines are not scheduled below that granularity",
                  "no chunk filters, no minDelay/jitter on the routers of the generated topologies (C14-C16 cover the filters)"])
 
-ALL = SEQ
+
+class _C19:
+    prop = "C19"
+    design_ref = "DESIGN.md 7.19"
+    technique = ("Lean 4 proof: lock discipline implies happens-before ordering of conflicting accesses (every execution); the discipline of the code is a "
+                 "regenerated table checked by the kernel (decide +kernel); Go race detector on concurrent workloads as the dynamic oracle")
+    level_text = ("Theorems (Props/C19.lean), for every execution (list of acquire/release/read/write/fork events of any threads, locks and locations) that "
+                  "respects mutual exclusion: lockset_discipline_sound (if every access to a guarded location is made holding the location's guard, no two "
+                  "conflicting accesses by different threads are unordered by happens-before: no data race on any guarded location), handover (a lock held "
+                  "by t and later by t' was released by t and acquired by t' in between, in that order), fork_orders. Per-code-base obligation "
+                  "(Props/C19Table.lean, table regenerated from /repo's working tree on every run by harness/tools/lockset): table_disciplined — every one of "
+                  "the ~190 accesses to a guarded field of packetio.Buffer, deadline.Deadline, udp.listener, vnet.Router/UDPConn/TokenBucketFilter/"
+                  "networkAddressTranslator/chunkQueue/udpConnMap/resolver (and every call of a 'caller holds the mutex' helper) holds its guard; the package "
+                  "variable macAddrCounter is touched only through sync/atomic. The pinned tree violated the property (macAddrCounter unsynchronised: race "
+                  "reported when networks are built in parallel; TokenBucketFilter.rate read outside its mutex — removed by the C15 fix); repaired by fix: commits.")
+    level_note = ("PARTIAL in its tie: the table is produced by a syntactic, intraprocedural extractor (receiver-based accesses only; which fields are guarded, "
+                  "constructor-only or goroutine-confined is a hand-written contract taken from the struct comments), and the step from 'the table is disciplined' "
+                  "to the theorem's hypothesis is not formalised. Channel-based synchronisation (readCh, notify, done channels), sync.Once, WaitGroup and atomic.Value "
+                  "are not modelled: fields protected that way are outside the table and covered by the race-detector workloads only. The race detector reports only "
+                  "races that occur in the schedules the workloads happen to run.")
+    engine = "lean-proof+regenerated-table+race-detector"
+
+
+ALL = dict(SEQ)
+ALL["C19"] = _C19
+
